@@ -539,3 +539,39 @@ def rule_visit5(prog, rep, tier, anchor="emitter_utils.RewriteName", user="emit.
                 "VISIT-5", user, "rename-set-provenance:%s" % arg.id,
                 "the rename set %s is %s: names that are not parameters (e.g. the reserved return_type) are rewritten to self.<name>"
                 % (arg.id, "not taken from the IR's params" if not from_params else "computed after %s changed the params mapping" % src(early[0], 50)), loc(prog, d)))
+
+
+def rule_visit4b(prog, rep, tier, anchor="ast_utils.annotate_ancestry", attrs=("_location", "_idx")):
+    """VISIT-4b (who-may-write): only the annotator (annotate_ancestry and the helpers it is split into) assigns the
+    location attributes; a node that receives a `_location` anywhere else (e.g. a graft inheriting the location of the
+    node it replaced) makes a location resolve to a node whose qualified path is something else."""
+    owner = {id(f.node) for f in prog.region(prog.fn(anchor))}
+    # nested defs of the owner belong to it
+    n = 0
+    for m in prog.modules.values():
+        for st in ast.walk(m.tree):
+            tgts = st.targets if isinstance(st, ast.Assign) else ([st.target] if isinstance(st, (ast.AugAssign, ast.AnnAssign)) else [])
+            for t in tgts:
+                if isinstance(t, ast.Attribute) and t.attr in attrs:
+                    n += 1
+                    fn = enclosing_fn(st)
+                    inside = False
+                    f2 = fn
+                    while f2 is not None:
+                        if id(f2.node) in owner:
+                            inside = True
+                        f2 = f2.parent_fn
+                    where = fn.qualname if fn else m.name
+                    if inside:
+                        rep.holds("VISIT-4b", "%s assigns %s" % (where, src(t, 40)), loc(prog, st), "inside the annotator")
+                    else:
+                        rep.violation(Finding("VISIT-4b", where, "location-written-outside-annotator:%s" % src(t, 50),
+                                              "%s assigns %s outside annotate_ancestry: the node then answers to a location that is not its qualified path" % (where, src(st, 70)), loc(prog, st)))
+            if isinstance(st, ast.Call) and isinstance(st.func, ast.Name) and st.func.id == "setattr" and len(st.args) >= 2 and isinstance(st.args[1], ast.Constant) and st.args[1].value in attrs:
+                fn = enclosing_fn(st)
+                if fn is None or id(fn.node) not in owner:
+                    n += 1
+                    rep.violation(Finding("VISIT-4b", fn.qualname if fn else m.name, "location-written-outside-annotator:setattr",
+                                          "setattr(..., %r, ...) outside annotate_ancestry" % st.args[1].value, loc(prog, st)))
+    if n < 3:
+        raise AnalysisError("VISIT-4b: only %d assignments of location attributes found" % n)
